@@ -164,6 +164,8 @@ func (ac *acceptCtx) domain() []mmut {
 		d.Momentum.Signature[17] ^= 8
 	})
 	add("Signature", "nil", func(d *nom.DetailedMomentum) { d.Momentum.Signature = nil })
+	add("Signature", "65-bytes", func(d *nom.DetailedMomentum) { d.Momentum.Signature = append(append([]byte{}, d.Momentum.Signature...), 0) })
+	add("Signature", "63-bytes", func(d *nom.DetailedMomentum) { d.Momentum.Signature = append([]byte{}, d.Momentum.Signature[:63]...) })
 	add("Signature", "user-key-signs(with-its-public-key)", func(d *nom.DetailedMomentum) {
 		d.Momentum.Signature = g.User1.Sign(d.Momentum.Hash[:])
 		d.Momentum.PublicKey = append([]byte{}, g.User1.Public...)
